@@ -130,7 +130,7 @@ func c04Strategy(cc *run.Case, ctx *run.Ctx, ns namedStrat, class string, n int,
 }
 
 func c04(ctx *run.Ctx) {
-	nrand := ctx.Pick(3, 10)
+	nrand := ctx.Pick(5, 10)
 	classes := []string{gen.Walk, gen.Ties}
 	if !ctx.Quick() {
 		classes = []string{gen.Walk, gen.Walk2, gen.Ties, gen.Plateau, gen.Degen}
